@@ -83,6 +83,8 @@ def subterms(t):
                     stack.append(p[1])
         elif k == "spec":
             stack.append(x[2])
+        elif k == "phi":
+            stack.extend(reversed([x[1]] + list(x[2])))
 
 
 def term_callees(t):
@@ -108,6 +110,8 @@ def same(a, b):
             return a[1] == b[1] and len(a[2]) == len(b[2]) and all(same(x, y) for x, y in zip(a[2], b[2]))
         if a[0] == "closure":
             return a[1] is b[1]
+        if a[0] == "phi":
+            return a[3] == b[3] and same(a[1], b[1])
         if len(a) != len(b):
             return False
         return all(same(x, y) for x, y in zip(a[1:], b[1:]))
